@@ -18,7 +18,7 @@ import json
 from pathlib import Path
 from typing import Dict, List, Optional, Set, Tuple
 
-from ..cfg import BASE, CFG, EXC, edges_guaranteeing
+from ..cfg import BASE, CFG, EXC, edges_guaranteeing, reaching_defs
 from ..engine import (
     AnalysisError,
     FuncNode,
@@ -53,8 +53,116 @@ SCHEMA_DIR = "semantiva/trace/schema"
 
 # constructs the rules look for by role; a private helper that contains one of them is inlined into the
 # normal form of execute (code moved across a function boundary stays visible), every other helper stays a call
-ROLE_CALLS = set(_orch.DRIVER_METHODS) | {"_make_ser_record", "_submit_and_wait", "_publish", "_instantiate_nodes", "compute_upstream_map", "compute_pipeline_id"}
-KNOWN_HELPERS = {"_make_ser_record", "_submit_and_wait", "_publish", "_instantiate_nodes", "_resolve_params_with_sources"}
+_ROLE_CALLS_BASE = set(_orch.DRIVER_METHODS) | {"_submit_and_wait", "_publish", "_instantiate_nodes", "compute_upstream_map", "compute_pipeline_id"}
+_KNOWN_HELPERS_BASE = {"_submit_and_wait", "_publish", "_instantiate_nodes", "_resolve_params_with_sources"}
+SER_BUILDER_DEFAULT = "_make_ser_record"
+
+
+def _ser_builder_name(repo: Repo) -> str:
+    """The name under which the orchestrator calls the function that builds the SER: found by role - the call whose
+    result is the argument of the driver's ``on_node_event`` (directly, or through a local bound to it) - so a rename of
+    that private helper does not move the anchor.  Falls back to the historical spelling when no such call is seen."""
+    cached = repo.__dict__.get("_c06_ser_builder")
+    if cached is not None:
+        return cached
+    omod = repo.module(ORCH)
+    votes: Dict[str, int] = {}
+    for _q, f in omod.defs.items():
+        if not isinstance(f, FuncNode):
+            continue
+        for c in calls_in(f):
+            if call_attr(c) != "on_node_event" or not isinstance(c.func, ast.Attribute):
+                continue
+            arg = c.args[0] if c.args else (c.keywords[0].value if c.keywords else None)
+            cands: List[ast.AST] = []
+            if isinstance(arg, ast.Call):
+                cands = [arg]
+            elif isinstance(arg, ast.Name):
+                cands = [v for v in assigned_value(f, arg.id) if isinstance(v, ast.Call)]
+            for cand in cands:
+                a = call_attr(cand)
+                if not a:
+                    continue
+                try:
+                    targets = [t for t in repo.resolve_call(omod, cand) if isinstance(t[1], FuncNode)]
+                except Exception:
+                    targets = []
+                if targets and not any(isinstance(getattr(t[1], "name", None), str) and t[1].name == "__init__" for t in targets):
+                    votes[a] = votes.get(a, 0) + 1
+    name = max(sorted(votes), key=lambda k: votes[k]) if votes else SER_BUILDER_DEFAULT
+    repo.__dict__["_c06_ser_builder"] = name
+    return name
+
+
+def _tuple_source_call(fn: ast.AST, name: str) -> Optional[ast.Call]:
+    """The call whose result binds local *name* in *fn*: ``name = f(..)`` or ``.., name, .. = f(..)`` (one such binding)."""
+    found: List[ast.Call] = []
+    for n in ast.walk(fn):
+        if isinstance(n, ast.Assign) and isinstance(n.value, ast.Call):
+            for t in n.targets:
+                elts = t.elts if isinstance(t, (ast.Tuple, ast.List)) else [t]
+                if any(isinstance(x, ast.Name) and x.id == name for x in elts):
+                    found.append(n.value)
+    return found[0] if len(found) == 1 else None
+
+
+def _execute_roles(repo: Repo) -> Dict[str, str]:
+    """Names of the private helpers execute() delegates to, found by what the call does in the raw function (a rename of
+    the helper keeps the role): `node_runner` receives the local callable that invokes ``<node>.process(..)``;
+    `instantiate` produces the sequence the node loop iterates over; `resolve_params` produces the pair whose second
+    component is handed to the SER builder as ``param_sources``.  Each falls back to its historical name."""
+    cached = repo.__dict__.get("_c06_roles")
+    if cached is not None:
+        return cached
+    roles = {"node_runner": "_submit_and_wait", "instantiate": "_instantiate_nodes", "resolve_params": "_resolve_params_with_sources"}
+    try:
+        raw = repo.func(ORCH, EXECUTE)
+    except Exception:
+        raw = None
+    if raw is not None:
+        # the node callable: a local def / lambda whose body calls <x>.process(..)
+        runs_node: Set[str] = set()
+        lambdas: List[ast.AST] = []
+        for d in ast.walk(raw):
+            if d is raw:
+                continue
+            if isinstance(d, FuncNode) and any(call_attr(c) == "process" and isinstance(c.func, ast.Attribute) for c in calls_in(d, include_nested=True)):
+                runs_node.add(d.name)
+            elif isinstance(d, ast.Lambda) and any(isinstance(c, ast.Call) and call_attr(c) == "process" and isinstance(c.func, ast.Attribute) for c in ast.walk(d.body)):
+                lambdas.append(d)
+        runner_calls = [c for c in ast.walk(raw) if isinstance(c, ast.Call) and call_attr(c) and any(
+            (isinstance(a, ast.Name) and a.id in runs_node) or any(a is l for l in lambdas) for a in list(c.args) + [k.value for k in c.keywords])]
+        names = {call_attr(c) for c in runner_calls}
+        if len(names) == 1:
+            roles["node_runner"] = names.pop()
+            loop = next((a for a in ancestors(runner_calls[0]) if isinstance(a, ast.For)), None)
+            if loop is not None:
+                srcs = {call_attr(sc) for x in ast.walk(loop.iter) if isinstance(x, ast.Name) for sc in [_tuple_source_call(raw, x.id)] if sc is not None and call_attr(sc)}
+                srcs -= {"enumerate", "zip", "list", "tuple", "range", "len"}
+                if len(srcs) == 1:
+                    roles["instantiate"] = srcs.pop()
+        ser = _ser_builder_name(repo)
+        srcs2: Set[str] = set()
+        for c in ast.walk(raw):
+            if isinstance(c, ast.Call) and call_attr(c) == ser:
+                v = kwarg(c, "param_sources")
+                if isinstance(v, ast.Name):
+                    sc = _tuple_source_call(raw, v.id)
+                    if sc is not None and call_attr(sc):
+                        srcs2.add(call_attr(sc))
+        if len(srcs2) == 1:
+            roles["resolve_params"] = srcs2.pop()
+    repo.__dict__["_c06_roles"] = roles
+    return roles
+
+
+def _role_calls(repo: Repo) -> Set[str]:
+    ro = _execute_roles(repo)
+    return _ROLE_CALLS_BASE | {_ser_builder_name(repo), ro["node_runner"], ro["instantiate"]}
+
+
+def _known_helpers(repo: Repo) -> Set[str]:
+    return _KNOWN_HELPERS_BASE | {_ser_builder_name(repo)} | set(_execute_roles(repo).values())
 
 
 def _execute_normal_form(repo: Repo) -> ast.FunctionDef:
@@ -65,6 +173,7 @@ def _execute_normal_form(repo: Repo) -> ast.FunctionDef:
     raw = repo.func(ORCH, EXECUTE)
     private = {q.split(".")[-1]: f for q, f in mod.defs.items() if isinstance(f, FuncNode) and q.split(".")[-1].startswith("_") and not q.split(".")[-1].startswith("__") and f is not raw}
     relevant: Set[str] = set()
+    ROLE_CALLS, KNOWN_HELPERS = _role_calls(repo), _known_helpers(repo)
     changed = True
     while changed:
         changed = False
@@ -872,20 +981,22 @@ def run(repo: Repo, R: Report) -> None:
     # ------------------------------------------------------------------ D1b per-node SER
     r_ser = R.rule("C06-D1b-ser-per-started-node", "from the statement that runs a node to the next iteration or any exit: exactly one on_node_event; `succeeded` on the fall-through path, `error` on exception paths (Exception and BaseException class), and the exception is re-raised unchanged", 4)
 
+    node_runner = _execute_roles(repo)["node_runner"]
+
     def node_failure_points(part: ast.AST) -> Set[str]:
         for n in walk_no_nested(part):
             if isinstance(n, ast.Raise):
                 return {EXC, BASE}
             if isinstance(n, ast.Call):
                 a = call_attr(n)
-                if a in ("_submit_and_wait", "_publish", "process"):
+                if a in (node_runner, "_publish", "process"):
                     return {EXC, BASE}
         return set()
 
     g2 = CFG(fn, fold=fold, may_raise=node_failure_points)
-    submit = [n for n in g2.nodes if n.ast is not None and n.kind == "stmt" and any(call_attr(c) == "_submit_and_wait" for c in calls_in(n.ast))]
+    submit = [n for n in g2.nodes if n.ast is not None and n.kind == "stmt" and any(call_attr(c) == node_runner for c in calls_in(n.ast))]
     if len(submit) != 1:
-        raise AnalysisError(f"execute(): expected one _submit_and_wait site, found {len(submit)}")
+        raise AnalysisError(f"execute(): expected one node-running ({node_runner}) site, found {len(submit)}")
     sub = submit[0]
     loop = next((a for a in ancestors(sub.ast) if isinstance(a, ast.For)), None)
     if loop is None:
@@ -894,6 +1005,8 @@ def run(repo: Repo, R: Report) -> None:
     event_nodes = [n for n in g2.nodes if _orch.node_has_driver_call(n, drivers, "on_node_event")]
     if not event_nodes:
         R.violation(r_ser, ORCH, EXECUTE, "on_node_event", "no SER is ever emitted", fn.lineno)
+
+    ser_builder = _ser_builder_name(repo)
 
     def event_status(n) -> Optional[str]:
         # the record handed to on_node_event, whatever local carries it: its status as given to the SER constructor
@@ -904,7 +1017,7 @@ def run(repo: Repo, R: Report) -> None:
         found: Set[Optional[str]] = set()
         for alt in V.resolve(arg, [n.id]):
             rec = V.binding(alt)
-            if not (isinstance(rec, ast.Call) and call_attr(rec) == "_make_ser_record"):
+            if not (isinstance(rec, ast.Call) and call_attr(rec) == ser_builder):
                 return None
             s_ = kwarg(rec, "status")
             site = V.binding_site(alt) or [n.id]
@@ -998,7 +1111,7 @@ def run(repo: Repo, R: Report) -> None:
         call = next(c for c in calls_in(n.ast) if _orch.is_driver_call(c, drivers, "on_pipeline_end"))
         a0 = _bind_driver_args(repo, "on_pipeline_end", call).get("#0")
         R.check(same(a0, [n.id], rid_vals), r_ids, ORCH, EXECUTE, norm(call)[:80] + " [run id]", "pipeline_end carries a different run id than pipeline_start", n.line)
-    ser_calls = [c for c in calls_in(fn) if call_attr(c) == "_make_ser_record"]
+    ser_calls = [c for c in calls_in(fn) if call_attr(c) == ser_builder]
     if not ser_calls:
         raise AnalysisError("execute(): _make_ser_record call not found")
 
@@ -1080,7 +1193,7 @@ def run(repo: Repo, R: Report) -> None:
         R.check(ok_up, r_ids, ORCH, EXECUTE, f"upstream_ids = <upstream map>.get(<node id>) ({label})", "SER upstream list is not looked up from the canonical upstream map for this node", c.lineno)
     # the loop visits the instantiated nodes in list order
     it_alts = V.resolve(loop.iter, heads)
-    ok_iter = bool(it_alts) and all(_visits_in_order(V, it) for it in it_alts)
+    ok_iter = bool(it_alts) and all(_visits_in_order(V, it, _execute_roles(repo)["instantiate"]) for it in it_alts)
     R.check(ok_iter, r_ids, ORCH, EXECUTE, norm(loop), "nodes are not visited in list order by enumerate()", loop.lineno)
     R.check(n_uuid_ok == len(ser_calls), r_ids, ORCH, EXECUTE, "node_uuids = [n['node_uuid'] for n in canonical nodes]", "node uuid list is not the canonical node list in order", fn.lineno)
     R.check(n_up_ok == len(ser_calls), r_ids, ORCH, EXECUTE, "upstream_map = compute_upstream_map(canonical)", "upstream map is not computed from the canonical spec", fn.lineno)
@@ -1089,6 +1202,7 @@ def run(repo: Repo, R: Report) -> None:
 
     # ------------------------------------------------------------------ D2 writer / schema agreement
     _schema_rules(repo, R, X)
+    _ser_null_rule(repo, R)
 
     # ------------------------------------------------------------------ D4 one line per record
     _line_rules(repo, R)
@@ -1148,7 +1262,7 @@ def _is_position(it: ast.AST, path: Tuple[int, ...]) -> bool:
     return False
 
 
-def _visits_in_order(V: "_Vals", it: ast.AST) -> bool:
+def _visits_in_order(V: "_Vals", it: ast.AST, instantiate: str = "_instantiate_nodes") -> bool:
     """``enumerate(<nodes>)`` / ``range(len(<nodes>))`` / ``zip(<positions>, <nodes>, ..)`` over what
     _instantiate_nodes returned, in list order."""
 
@@ -1160,7 +1274,7 @@ def _visits_in_order(V: "_Vals", it: ast.AST) -> bool:
             return bool(parts) and all(instantiated(a) for a in parts) and all(positions_of_instantiated(a) for a in e.args if _is_position(a, ()))
         if isinstance(e, ast.Name) and e.id in V.info:
             _d, kind, v, _p = V.info[e.id]
-            return kind in ("elem", "value") and isinstance(v, ast.Call) and call_attr(v) == "_instantiate_nodes"
+            return kind in ("elem", "value") and isinstance(v, ast.Call) and call_attr(v) == instantiate
         return False
 
     def positions_of_instantiated(a: ast.AST) -> bool:
@@ -1307,7 +1421,7 @@ def _upstream_map_rule(repo: Repo, R: Report, r_ids) -> None:
 
 def _instantiation_order_rule(repo: Repo, R: Report, r_ids) -> None:
     from ..engine import returned_values
-    irel, iqn, _idef = _helper_of_execute(repo, "_instantiate_nodes")
+    irel, iqn, _idef = _helper_of_execute(repo, _execute_roles(repo)["instantiate"])
     inst = nfunc(repo, irel, iqn, copyprop="all")
     loops = [n for n in walk_no_nested(inst) if isinstance(n, ast.For)]
     returned_lists = {x.id for rv in returned_values(inst) for x in (rv.elts if isinstance(rv, ast.Tuple) else [rv]) if isinstance(x, ast.Name)}
@@ -1438,24 +1552,24 @@ def _propagation_rules(repo: Repo, R: Report, X: "_Exec") -> None:
     total = 0
     # execute itself: the construction call and the node run
     fn = X.fn
-    total += _propagation_in(R, r, ORCH, EXECUTE, fn, lambda c: call_attr(c) in ("_instantiate_nodes", "_submit_and_wait"), "execute", fold=X.fold)
+    total += _propagation_in(R, r, ORCH, EXECUTE, fn, lambda c: call_attr(c) in (_execute_roles(repo)["instantiate"], _execute_roles(repo)["node_runner"]), "execute", fold=X.fold)
     # the callable handed to _submit_and_wait, when it is a local function of execute
     for c in calls_in(fn):
-        if call_attr(c) == "_submit_and_wait":
+        if call_attr(c) == _execute_roles(repo)["node_runner"]:
             for a in list(c.args) + [k.value for k in c.keywords]:
                 if isinstance(a, ast.Name):
                     for d in ast.walk(fn):
                         if isinstance(d, FuncNode) and d.name == a.id and d is not fn:
                             total += _propagation_in(R, r, ORCH, EXECUTE + "." + d.name, d, lambda c2: call_attr(c2) not in NOT_AN_ORIGIN, "node callable")
     # construction
-    irel, iqn, _idef = _helper_of_execute(repo, "_instantiate_nodes")
+    irel, iqn, _idef = _helper_of_execute(repo, _execute_roles(repo)["instantiate"])
     inst = nfunc(repo, irel, iqn)
     total += _propagation_in(R, r, irel, iqn, inst, lambda c: call_attr(c) not in NOT_AN_ORIGIN, "node construction", repo=repo)
     # every concrete _submit_and_wait, and every concrete executor submit (the node callable is its first parameter)
     base = repo.cls(ORCH, "SemantivaOrchestrator")
     for mod, cls in [(omod, base)] + repo.subclasses(base):
         for st in cls.body:
-            if isinstance(st, FuncNode) and st.name == "_submit_and_wait" and not _is_abstract(st):
+            if isinstance(st, FuncNode) and st.name == _execute_roles(repo)["node_runner"] and not _is_abstract(st):
                 qn = qualname_of(st)
                 nf = nfunc(repo, mod.rel, qn)
                 total += _propagation_in(R, r, mod.rel, qn, nf, lambda c: call_attr(c) not in NOT_AN_ORIGIN, "node execution", repo=repo)
@@ -2294,7 +2408,7 @@ def _schema_rules(repo: Repo, R: Report, X: Optional["_Exec"] = None) -> None:
     optional = {k for k, st in fields.items() if st.value is not None}
     for k in sorted(req):
         R.check(k in fields and k not in optional, r, MODEL, "SERRecord", f"ser: required key {k!r} is a mandatory dataclass field", f"schema-required SER key {k!r} is not a mandatory field of SERRecord", ser_cls.lineno)
-    mk_rel, mk_qn, mk = _helper_of_execute(repo, "_make_ser_record")
+    mk_rel, mk_qn, mk = _helper_of_execute(repo, _ser_builder_name(repo))
     ctor = next((c for c in ast.walk(mk) if isinstance(c, ast.Call) and call_attr(c) == "SERRecord"), None)
     if ctor is None:
         raise AnalysisError("_make_ser_record: SERRecord(...) not found")
@@ -2315,7 +2429,7 @@ def _schema_rules(repo: Repo, R: Report, X: Optional["_Exec"] = None) -> None:
             elif k == "timing":
                 # the timing mapping handed over at the call sites in execute (a literal there, or a local bound to one)
                 for c in calls_in(X.fn):
-                    if call_attr(c) == "_make_ser_record":
+                    if call_attr(c) == _ser_builder_name(repo):
                         t = kwarg(c, "timing")
                         at_c = V.uses(c)
                         lits = [V.binding(a) for a in V.resolve(t, at_c)] if t is not None else []
@@ -2326,13 +2440,13 @@ def _schema_rules(repo: Repo, R: Report, X: Optional["_Exec"] = None) -> None:
     # status enum: literals passed as status= at call sites, after normalisation table
     enum = set(props.get("status", {}).get("enum", []))
     for c in calls_in(X.fn):
-        if call_attr(c) == "_make_ser_record":
+        if call_attr(c) == _ser_builder_name(repo):
             s = kwarg(c, "status")
             vals = V.resolve(s, V.uses(c)) if s is not None else []
             R.check(bool(vals) and all(isinstance(v, ast.Constant) and v.value in enum for v in vals), r, ORCH, EXECUTE, f"ser.status literal {_status_label(V, c)!r}", "SER status literal outside the schema enum", c.lineno)
     # parameter_sources enum
     ps_enum = set(props.get("processor", {}).get("properties", {}).get("parameter_sources", {}).get("additionalProperties", {}).get("enum", []))
-    rp_rel, rp_qn, _rp_def = _helper_of_execute(repo, "_resolve_params_with_sources")
+    rp_rel, rp_qn, _rp_def = _helper_of_execute(repo, _execute_roles(repo)["resolve_params"])
     rp = nfunc(repo, rp_rel, rp_qn, copyprop="all")
     # the provenance table by role: the second component of what the resolver returns
     src_names = {r.value.elts[1].id for r in walk_no_nested(rp) if isinstance(r, ast.Return) and isinstance(r.value, ast.Tuple) and len(r.value.elts) == 2 and isinstance(r.value.elts[1], ast.Name)}
@@ -2351,7 +2465,295 @@ def _schema_rules(repo: Repo, R: Report, X: Optional["_Exec"] = None) -> None:
             R.check(ok, r, JSONL, "JsonlTraceDriver.on_node_event", norm(stmt_of(n))[:120], "SER keys are filtered by something other than `is not None` / JSON-type fallback", n.lineno)
 
 
+# ---------------------------------------------------------------------------
+# D2d: an optional SER section that is absent is left out of the line, not written as null
+# ---------------------------------------------------------------------------
+
+def _admits_null(spec: dict) -> Optional[bool]:
+    """Does the schema of one property accept JSON null?  None: the property is unconstrained in that respect."""
+    if not isinstance(spec, dict):
+        return None
+    if "const" in spec:
+        return spec["const"] is None
+    if "enum" in spec:
+        return None in spec["enum"]
+    t = spec.get("type")
+    if isinstance(t, str):
+        return t == "null"
+    if isinstance(t, list):
+        return "null" in t
+    for comb in ("anyOf", "oneOf"):
+        if isinstance(spec.get(comb), list) and spec[comb]:
+            subs = [_admits_null(x) for x in spec[comb]]
+            if any(x is None for x in subs):
+                return None
+            return any(subs)
+    return None
+
+
+def _annotation_admits_none(a: Optional[ast.AST]) -> bool:
+    if a is None:
+        return False
+    if isinstance(a, ast.Constant) and isinstance(a.value, str):
+        try:
+            a = ast.parse(a.value, mode="eval").body
+        except SyntaxError:
+            return False
+    for x in ast.walk(a):
+        if isinstance(x, ast.Constant) and x.value is None:
+            return True
+        if (dotted_name(x) or "").split(".")[-1] == "Optional":
+            return True
+    return False
+
+
+def _mapping_key_removal(st: ast.AST, rec: str) -> Optional[ast.AST]:
+    """The key expression of a statement that removes one entry of mapping *rec*: `del rec[k]`, `rec.pop(k[, d])`,
+    `rec.__delitem__(k)`."""
+    if isinstance(st, ast.Delete) and len(st.targets) == 1:
+        t = st.targets[0]
+        if isinstance(t, ast.Subscript) and dotted_name(t.value) == rec:
+            return t.slice
+    if isinstance(st, ast.Expr) and isinstance(st.value, ast.Call) and isinstance(st.value.func, ast.Attribute) and st.value.func.attr in ("pop", "__delitem__") \
+            and dotted_name(st.value.func.value) == rec and st.value.args:
+        return st.value.args[0]
+    return None
+
+
+def _none_item_test(test: ast.AST, rec: str) -> Optional[ast.AST]:
+    """The key expression K of a test that holds exactly when the entry K of *rec* is None (possibly after a presence
+    test): `rec[K] is None`, `rec.get(K) is None`, `K in rec and rec[K] is None`."""
+    if isinstance(test, ast.BoolOp) and isinstance(test.op, ast.And) and len(test.values) == 2:
+        first, second = test.values
+        k2 = _none_item_test(second, rec)
+        if k2 is not None and isinstance(first, ast.Compare) and len(first.ops) == 1 and isinstance(first.ops[0], ast.In) \
+                and dotted_name(first.comparators[0]) == rec and ast.dump(first.left) == ast.dump(k2):
+            return k2
+        return None
+    nt = _none_test(test)
+    if nt is None:
+        return None
+    e, not_none = nt
+    if not_none:
+        return None
+    if isinstance(e, ast.Subscript) and dotted_name(e.value) == rec:
+        return e.slice
+    if isinstance(e, ast.Call) and isinstance(e.func, ast.Attribute) and e.func.attr == "get" and dotted_name(e.func.value) == rec and len(e.args) == 1 and not e.keywords:
+        return e.args[0]
+    return None
+
+
+def _enumerates_keys_of(it: ast.AST, rec: str) -> bool:
+    if isinstance(it, ast.Call) and isinstance(it.func, ast.Name) and it.func.id in ("list", "tuple", "sorted", "set", "frozenset") and len(it.args) == 1 and not it.keywords:
+        return _enumerates_keys_of(it.args[0], rec)
+    if isinstance(it, ast.Call) and isinstance(it.func, ast.Attribute) and it.func.attr == "keys" and not it.args and not it.keywords:
+        return dotted_name(it.func.value) == rec
+    return dotted_name(it) == rec
+
+
+def _ser_null_rule(repo: Repo, R: Report) -> None:
+    r = R.rule("C06-D2d-ser-optional-section-never-null", "interface between the SER model, the SER schema and the JSONL writer: a top-level SER field that may be None (declared Optional / defaulting to None in SERRecord, or given `.. or None` by the SER builder - `summaries` at trace detail `context`, `error` of a succeeded node, `tags`) and whose schema property does not accept null is removed from the record when it is None on every path to the json.dumps that writes the line (a filtered copy `{k: v .. if v is not None}`, or a guarded removal of that key) - otherwise every SER of such a run carries `\"<field>\": null` and is rejected by the schema", 3)
+    registry = _load_schema(repo, "trace_registry_v1.json").get("records", {})
+    _req, props = _flatten(repo, _load_schema(repo, registry.get("ser", "x/semantic_execution_record_v1.schema.json").split("/")[-1]))
+    ser_cls = repo.cls(MODEL, "SERRecord")
+    fields = {st.target.id: st for st in ser_cls.body if isinstance(st, ast.AnnAssign) and isinstance(st.target, ast.Name)}
+    nullable: Dict[str, str] = {}
+    for k, st in fields.items():
+        if (isinstance(st.value, ast.Constant) and st.value.value is None) or _annotation_admits_none(st.annotation):
+            nullable[k] = f"SERRecord.{k} is declared `{norm(st.annotation)}`" + (f" = {norm(st.value)}" if st.value is not None else "")
+    # what the SER builder visibly hands over: `<x> or None`, `None`, `a if c else None`
+    try:
+        _mk_rel, mk_qn, mk = _helper_of_execute(repo, _ser_builder_name(repo))
+    except AnalysisError:
+        mk = None
+    if mk is not None:
+        for ctor in (c for c in ast.walk(mk) if isinstance(c, ast.Call) and call_attr(c) == "SERRecord"):
+            for kw in ctor.keywords:
+                v = kw.value
+                arms = v.values if isinstance(v, ast.BoolOp) else [v.body, v.orelse] if isinstance(v, ast.IfExp) else [v]
+                if kw.arg and kw.arg not in nullable and any(_is_none(a) for a in arms):
+                    nullable[kw.arg] = f"{mk_qn} passes `{kw.arg}={norm(v)}`"
+        # a declared-optional field that the (only) builder always fills with a display / text is never None in an emitted SER
+        ctors = [c for c in ast.walk(mk) if isinstance(c, ast.Call) and call_attr(c) == "SERRecord"]
+        for k in list(nullable):
+            vals = [kwarg(c, k) for c in ctors]
+            if ctors and all(isinstance(v, (ast.Dict, ast.List, ast.JoinedStr)) or (isinstance(v, ast.Constant) and v.value is not None) for v in vals):
+                del nullable[k]
+    strict = {k: why for k, why in nullable.items() if _admits_null(props.get(k, {})) is False}
+    if not strict:
+        raise AnalysisError("SER model / schema: no optional top-level field with a non-null schema type found (error, tags, summaries expected)")
+    writes = [w for w in _driver_writes(repo) if w.qn.split(".")[-1] == "on_node_event" and w.dumps]
+    if not writes:
+        raise AnalysisError("on_node_event: no json.dumps whose text is written to the trace file found")
+    graphs: Dict[int, CFG] = {}
+
+    def graph(nf: ast.AST) -> CFG:
+        if id(nf) not in graphs:
+            graphs[id(nf)] = CFG(nf)
+        return graphs[id(nf)]
+
+    def purge_nodes(g: CFG, nf: ast.AST, rec: str, key: str) -> Set[int]:
+        """CFG nodes after which entry *key* of mapping *rec* is not None: a guarded removal of that key, or a loop
+        over the keys of *rec* that removes every None-valued entry."""
+        out: Set[int] = set()
+        for st in walk_no_nested(nf):
+            if isinstance(st, ast.If):
+                k = _none_item_test(st.test, rec)
+                if isinstance(k, ast.Constant) and k.value == key and any(
+                        isinstance(kk := _mapping_key_removal(b, rec), ast.Constant) and kk.value == key for b in st.body):
+                    out |= set(g.nodes_for(st))
+            elif isinstance(st, ast.For) and not st.orelse and len(st.body) == 1 and isinstance(st.body[0], ast.If) and not st.body[0].orelse:
+                inner = st.body[0]
+                kvar: Optional[str] = None
+                test_ok = False
+                if isinstance(st.target, ast.Name) and _enumerates_keys_of(st.iter, rec) and not (isinstance(st.iter, ast.Name) or isinstance(st.iter, ast.Attribute)):
+                    kvar = st.target.id
+                    k = _none_item_test(inner.test, rec)
+                    test_ok = isinstance(k, ast.Name) and k.id == kvar
+                elif isinstance(st.target, ast.Tuple) and len(st.target.elts) == 2 and all(isinstance(x, ast.Name) for x in st.target.elts):
+                    it = st.iter
+                    if isinstance(it, ast.Call) and isinstance(it.func, ast.Name) and it.func.id in ("list", "tuple", "sorted") and len(it.args) == 1:
+                        inner_it = it.args[0]
+                        if isinstance(inner_it, ast.Call) and isinstance(inner_it.func, ast.Attribute) and inner_it.func.attr == "items" and dotted_name(inner_it.func.value) == rec:
+                            kvar = st.target.elts[0].id
+                            nt = _none_test(inner.test)
+                            test_ok = nt is not None and not nt[1] and ((isinstance(nt[0], ast.Name) and nt[0].id == st.target.elts[1].id) or
+                                                                    (isinstance(_none_item_test(inner.test, rec), ast.Name) and _none_item_test(inner.test, rec).id == kvar))
+                if kvar and test_ok and any(isinstance(kk := _mapping_key_removal(b, rec), ast.Name) and kk.id == kvar for b in inner.body):
+                    out |= set(g.nodes_for(st))
+        return out
+
+    def none_free(g: CFG, nf: ast.AST, e: ast.AST, at: List[int], key: str, depth: int = 0) -> Tuple[bool, Optional[ast.AST]]:
+        """(entry *key* of the mapping *e*, evaluated at CFG nodes *at*, is absent or not None; the construct that lets None through)."""
+        if depth > 6:
+            raise AnalysisError(f"on_node_event: the record handed to json.dumps cannot be followed (`{norm(e)[:60]}`)")
+        if isinstance(e, ast.DictComp):
+            return (True, None) if _filters_items_by_value_only(e) else (False, e)
+        if isinstance(e, ast.Dict):
+            for k, v in zip(e.keys, e.values):
+                if k is None:
+                    ok, why = none_free(g, nf, v, at, key, depth + 1)
+                    if not ok:
+                        return False, why
+                elif isinstance(k, ast.Constant) and k.value == key and not (isinstance(v, ast.Constant) and v.value is not None):
+                    return False, e
+                elif not isinstance(k, ast.Constant):
+                    return False, e
+            return True, None
+        if isinstance(e, ast.Call) and call_name(e) == "dict" and len(e.args) == 1 and not e.keywords and isinstance(e.args[0], (ast.GeneratorExp, ast.ListComp)) \
+                and isinstance(e.args[0].elt, ast.Tuple) and len(e.args[0].elt.elts) == 2:
+            # dict((k, v) for ..) is the comprehension {k: v for ..}
+            pairs = e.args[0]
+            return none_free(g, nf, ast.copy_location(ast.DictComp(key=pairs.elt.elts[0], value=pairs.elt.elts[1], generators=pairs.generators), e), at, key, depth + 1)
+        if isinstance(e, ast.Call):
+            inner = _copied_from(e)
+            if inner is not None:
+                return none_free(g, nf, inner, at, key, depth + 1)
+            a = call_attr(e)
+            if a in ("asdict", "vars", "dict", "_asdict"):
+                return False, e
+            raise AnalysisError(f"on_node_event: the record handed to json.dumps is produced by `{norm(e)[:60]}` (unknown shape)")
+        if isinstance(e, ast.Attribute) and e.attr == "__dict__":
+            return False, e
+        if isinstance(e, ast.Name):
+            bad: Optional[ast.AST] = None
+            for use in at:
+                defs = reaching_defs(g, e.id, use)
+                if not defs:
+                    raise AnalysisError(f"on_node_event: `{e.id}` handed to json.dumps has no definition in the method (unknown shape)")
+                for d in defs:
+                    v = d.ast.value if isinstance(d.ast, (ast.Assign, ast.AnnAssign)) and d.kind == "stmt" else None
+                    tg = (d.ast.targets if isinstance(d.ast, ast.Assign) else [d.ast.target]) if v is not None else []
+                    if v is None or not all(isinstance(t, ast.Name) for t in tg):
+                        raise AnalysisError(f"on_node_event: `{e.id}` is bound by `{norm(d.ast)[:60]}` (unknown shape)")
+                    ok, why = none_free(g, nf, v, [d.id], key, depth + 1)
+                    if ok:
+                        continue
+                    gates = purge_nodes(g, nf, e.id, key)
+                    starts = [t for t, lab in g.succ[d.id] if lab not in (EXC, BASE) and t not in gates]
+                    first_hit = [t for t, lab in g.succ[d.id] if lab not in (EXC, BASE) and t in gates]
+                    if use in gates or (not starts and first_hit):
+                        continue
+                    if g.must_pass(starts, [use], lambda n, gs=gates: n.id in gs):
+                        bad = bad or why or v
+            return (bad is None), bad
+        return False, e
+
+    for w in writes:
+        g = graph(w.nf)
+        for d in w.dumps:
+            arg = d.args[0] if d.args else kwarg(d, "obj")
+            at = g.nodes_for(stmt_of(d)) if any(x is d for x in ast.walk(w.nf)) else []
+            if arg is None or not at:
+                raise AnalysisError(f"{w.qn}: the json.dumps that produces the SER line is not a statement of the method's normal form (unknown shape)")
+            for key, why_nullable in sorted(strict.items()):
+                ok, cause = none_free(g, w.nf, arg, at, key)
+                R.check(ok, r, JSONL, w.qn, f"{norm(d)[:60]}: `{key}` left out when None",
+                        f"the SER field `{key}` can be None ({why_nullable}) and its schema type is {props[key].get('type')!r} (null not accepted), but the record serialised here keeps the entry when it is None"
+                        + (f" (built by `{norm(cause)[:80]}`, no filter / guarded removal of `{key}` on the way)" if cause is not None else "")
+                        + f": the line is written with \"{key}\": null and fails schema validation - for `summaries` at trace detail `context` alone, for every SER of the run",
+                        getattr(d, "lineno", w.call.lineno))
+
+
+
 SANITISERS = {"float", "int", "str", "bool", "len", "repr", "_json_safe_sample", "serialize_json_safe", "safe_repr", "sha256_bytes", "_sha256_json", "hexdigest"}
+_SEMID_REL = "semantiva/metadata/semantic_id.py"
+
+
+def _probe_sanitisers(repo: Repo) -> List[Tuple[str, str]]:
+    """(file, name) of the functions that play the role of the leaf sanitiser of the metadata module - found by what they
+    do, not by their name or home module: a module-level function with one parameter that hands that parameter to a
+    ``json.dumps`` probe and has a ``return <parameter>`` (the value itself when the probe passed), defined in the
+    metadata module or called from it.  D2c then decides whether each of them is sound."""
+    cached = repo.__dict__.get("_c06_probe_sanitisers")
+    if cached is not None:
+        return cached
+    out: List[Tuple[str, str]] = []
+    try:
+        smod = repo.module(_SEMID_REL)
+    except Exception:
+        smod = None
+
+    def has_role(m, f: ast.AST) -> bool:
+        if not isinstance(f, FuncNode) or f.args.vararg or f.args.kwarg or f.args.kwonlyargs or len(f.args.posonlyargs) + len(f.args.args) != 1:
+            return False
+        p = (f.args.posonlyargs + f.args.args)[0].arg
+        if not any(isinstance(n, ast.Return) and isinstance(n.value, ast.Name) and n.value.id == p for n in walk_no_nested(f)):
+            return False
+        for c in calls_in(f):
+            a0 = c.args[0] if c.args else kwarg(c, "obj")
+            if isinstance(a0, ast.Name) and a0.id == p and _is_json_dumps(repo, m, c):
+                return True
+        return False
+
+    if smod is not None:
+        cands: List[Tuple[object, ast.AST]] = [(smod, f) for q, f in smod.defs.items() if isinstance(f, FuncNode) and "." not in q]
+        for q, f in list(smod.defs.items()):
+            if not isinstance(f, FuncNode):
+                continue
+            for c in calls_in(f, include_nested=True):
+                if not isinstance(c.func, ast.Name) and not isinstance(c.func, ast.Attribute):
+                    continue
+                try:
+                    cands.extend(t for t in repo.resolve_call(smod, c) if isinstance(t[1], FuncNode) and t[0] is not smod)
+                except Exception:
+                    pass
+        seen: Set[int] = set()
+        for m, f in cands:
+            if id(f) in seen:
+                continue
+            seen.add(id(f))
+            q = qualname_of(f)
+            if "." in q or m.defs.get(q) is not f:
+                continue
+            if has_role(m, f):
+                out.append((m.rel, q))
+    repo.__dict__["_c06_probe_sanitisers"] = out
+    return out
+
+
+def _sanitisers(repo: Repo) -> Set[str]:
+    return SANITISERS | {q for _r, q in _probe_sanitisers(repo)}
 
 
 class _Scope:
@@ -2635,7 +3037,7 @@ class _JsonSafe:
             if defsc is None and isinstance(fn_, FuncNode):
                 # a module-level function / method: analysed on its normal form
                 try:
-                    nf = nfunc(self.repo, m_.rel, qualname_of(fn_), keep=tuple(sorted(SANITISERS)))
+                    nf = nfunc(self.repo, m_.rel, qualname_of(fn_), keep=tuple(sorted(_sanitisers(self.repo))))
                 except Exception:
                     nf = fn_
                 out.append(sc.child(nf, call, None, m_))
@@ -2686,7 +3088,7 @@ class _JsonSafe:
             return self.safe(e.value, sc, hidden, depth + 1)
         if isinstance(e, ast.Call):
             a = call_attr(e)
-            if a in SANITISERS:
+            if a in _sanitisers(self.repo):
                 return True
             if a == "getattr" and len(e.args) == 3:
                 return False
@@ -2777,7 +3179,7 @@ class _JsonSafe:
             return self.elem_safe(e.body, sc, path, depth + 1) and self.elem_safe(e.orelse, sc, path, depth + 1)
         if isinstance(e, ast.Name):
             return self.name_safe(e.id, sc, path, depth + 1)
-        if isinstance(e, ast.Call) and call_attr(e) not in SANITISERS:
+        if isinstance(e, ast.Call) and call_attr(e) not in _sanitisers(self.repo):
             scopes = self.call_scopes(e, sc)
             if scopes:
                 ok = True
@@ -2824,7 +3226,7 @@ class _JsonSafe:
                     for i in range(before, len(out)):
                         k_, e_, s_, st_ = out[i]
                         out[i] = (k_, e_, s_, st_ + [(a, b, owner) for a, b in stores]) if k_ == "dict" and s_ is owner else ("other", e, s, [])
-            elif isinstance(e, ast.Call) and call_attr(e) not in SANITISERS:
+            elif isinstance(e, ast.Call) and call_attr(e) not in _sanitisers(self.repo):
                 scopes = self.call_scopes(e, s)
                 if not scopes:
                     out.append(("other", e, s, []))
@@ -2847,7 +3249,7 @@ def _json_safety_rules(repo: Repo, R: Report, fallback_pops) -> None:
     SEM = "semantiva/metadata/semantic_id.py"
     repo.func(SEM, "variable_domain_signature")
     smod = repo.module(SEM)
-    vds = nfunc(repo, SEM, "variable_domain_signature", keep=tuple(sorted(SANITISERS)))
+    vds = nfunc(repo, SEM, "variable_domain_signature", keep=tuple(sorted(_sanitisers(repo))))
     J = _JsonSafe(repo)
     root = _Scope(repo, smod, vds)
     entry_param = vds.args.args[0].arg if vds.args.args else None
@@ -2926,6 +3328,22 @@ TEXT_METHODS_OF_TEXT = {"strip", "lstrip", "rstrip", "lower", "upper", "replace"
                         "zfill", "expandtabs", "casefold", "swapcase", "translate"}
 SAFE_CALLS = {"int", "float", "bool", "len", "round", "abs", "sha256_bytes", "_sha256_json", "serialize_json_safe", "_json_safe_sample"}
 PERMISSIVE_DUMPS_KW = {"default", "cls", "skipkeys"}
+
+
+def _sanitiser_funcs(repo: Repo) -> List[Tuple[str, str]]:
+    """The sanitiser functions D2c / D4c analyse: the two public ones of the trace utilities and whatever plays the role
+    of the metadata module's probe sanitiser (found by role; the historical name is kept when it still exists)."""
+    out = [x for x in SANITISER_FUNCS if x[0] != SEMID]
+    found = [x for x in _probe_sanitisers(repo) if x not in out]
+    out += found
+    for rel, qn in SANITISER_FUNCS:
+        if rel == SEMID and (rel, qn) not in out and (not found or repo.maybe_func(rel, qn) is not None):
+            out.append((rel, qn))
+    return out
+
+
+def _safe_calls(repo: Repo) -> Set[str]:
+    return SAFE_CALLS | {q for _r, q in _probe_sanitisers(repo)}
 
 
 def _type_names(mod, e: ast.AST, depth: int = 0) -> Optional[Set[str]]:
@@ -3137,7 +3555,7 @@ class _Sanitiser:
             if isinstance(e.func, ast.Name):
                 if a in TEXT_CALLS:
                     return {"text"}
-                if a in SAFE_CALLS:
+                if a in _safe_calls(self.repo):
                     return {"safe"}
             d = call_name(e) or ""
             head, _, rest = d.partition(".")
@@ -3148,7 +3566,7 @@ class _Sanitiser:
                     return {"text"}
                 if a in TEXT_METHODS_OF_TEXT and sub(e.func.value) == {"text"}:
                     return {"text"}
-            if a in TEXT_CALLS or a in SAFE_CALLS:
+            if a in TEXT_CALLS or a in _safe_calls(self.repo):
                 return {"text"} if a in TEXT_CALLS else {"safe"}
             return unknown
         if isinstance(e, ast.BinOp):
@@ -3182,7 +3600,7 @@ class _Sanitiser:
 
 def _sanitiser_rules(repo: Repo, R: Report) -> None:
     r = R.rule("C06-D2c-sanitiser-sound", "the functions every free-form value passes through before it enters a trace record (serialize_json_safe, safe_repr, _json_safe_sample) return only text, or their argument after it was proven JSON-encodable on every path to that return: a strict json.dumps of the whole value completed, or a type test against JSON scalar types (for a container: of every item) holds - a shallow test of a container lets a nested non-JSON object into the record, json.dumps in the driver raises, the SER is lost and the caller gets TypeError instead of its own exception", 4)
-    for rel, qn in SANITISER_FUNCS:
+    for rel, qn in _sanitiser_funcs(repo):
         S = _Sanitiser(repo, rel, qn)
         g = S.g
         rets = [n for n in g.nodes if n.kind == "stmt" and isinstance(n.ast, ast.Return)]
@@ -3445,10 +3863,10 @@ def _sanitiser_probes(repo: Repo) -> List[Tuple[str, str, ast.Call]]:
                 if _is_json_dumps(repo, S.mod, c):
                     if not any(c is x[2] for x in out):
                         out.append((S.rel, top, c))
-                elif isinstance(c.func, ast.Name) and isinstance(S.mod.defs.get(c.func.id), ast.FunctionDef) and depth < 2 and c.func.id not in {q for _r, q in SANITISER_FUNCS}:
+                elif isinstance(c.func, ast.Name) and isinstance(S.mod.defs.get(c.func.id), ast.FunctionDef) and depth < 2 and c.func.id not in {q for _r, q in _sanitiser_funcs(repo)}:
                     collect(_Sanitiser(repo, S.rel, c.func.id, depth=depth + 1), top, depth + 1)
 
-    for rel, qn in SANITISER_FUNCS:
+    for rel, qn in _sanitiser_funcs(repo):
         collect(_Sanitiser(repo, rel, qn), qn, 0)
     return out
 
